@@ -7,6 +7,7 @@ COQ = os.path.join(ROOT, "coq")
 REPO = os.environ.get("VERIF_REPO", "/repo")
 NPROC = 16
 CUTSMAX = [9]
+TIER = ["quick"]
 
 GOENV = dict(os.environ, GOFLAGS="-mod=mod", GOPROXY="off", GOSUMDB="off", GOTOOLCHAIN="local")
 
@@ -192,6 +193,15 @@ def check_theorems(pid):
             else:
                 ok = False
     res["ok"] = ok and res["discharged"] == res["obligations"] and res["obligations"] > 0
+    if res["ok"] and TIER[0] == "thorough":
+        # independent re-check of the compiled property file and everything it depends on
+        rc, chk = sh("timeout 3000 coqchk -silent -o -Q %s SF -Q . Gen %s.vo" % (COQ, pid), cwd=d)
+        summary = chk[chk.find("CONTEXT SUMMARY"):][:1500] if "CONTEXT SUMMARY" in chk else chk[-1500:]
+        res["coqchk"] = summary
+        axioms_none = re.search(r"\* Axioms:\s*<none>", summary) is not None
+        if rc != 0 or not axioms_none:
+            res["ok"] = False
+            res["log"] += "\ncoqchk: rc=%d\n%s" % (rc, summary)
     return res
 
 
@@ -272,6 +282,7 @@ def run_check(pid, tier, seed):
     t0 = time.time()
     P = PROPS[pid]
     CUTSMAX[0] = 12 if tier == "thorough" else 9
+    TIER[0] = tier
     violations = []      # (replay path, suffix)
     known_lines = []
     notes = []
@@ -406,6 +417,7 @@ def run_check(pid, tier, seed):
                                             oracle_failures=len([1 for v, _ in r["failures"] if v.startswith("ORACLE")]))
                             for r in runs},
             known_findings_printed=known_lines,
+            coqchk=thm.get("coqchk", "(thorough tier only)"),
             notes=notes,
         ),
         assumptions=P.get("assumptions", []),
